@@ -195,8 +195,15 @@ pub fn start_watchdog() {
     }
     let _ = now_ms();
     let limit = wall_limit_ms();
+    // a worker process whose supervising parent is gone (killed by a time
+    // limit, say) must not linger
+    let supervised = std::env::var("VERIF_INNER").is_ok();
+    let parent = std::os::unix::process::parent_id();
     std::thread::spawn(move || loop {
         std::thread::sleep(Duration::from_millis(500));
+        if supervised && std::os::unix::process::parent_id() != parent {
+            std::process::exit(2);
+        }
         let now = now_ms();
         let slots: Vec<std::sync::Arc<WatchSlot>> = SLOTS.lock().unwrap().clone();
         for slot in slots {
